@@ -147,6 +147,30 @@ theorem toShape_bounds (G : Geos σ) (hG : Sound G) (g : Geom) (tb fb : Rat) (p 
       | (simp [isTime_interval] at hn)
       | exact hG.box_bounds _ _ _ _ hw.1
 
+/-! ### small facts used by the dispatcher theorems -/
+
+theorem timeInter_bounds (s1 e1 s2 e2 : Rat) (h1 : s1 ≤ e1) (h2 : s2 ≤ e2) :
+    0 ≤ max 0 (min e1 e2 - max s1 s2) ∧ max 0 (min e1 e2 - max s1 s2) ≤ e1 - s1 ∧
+    max 0 (min e1 e2 - max s1 s2) ≤ e2 - s2 := by
+  refine ⟨le_max_left _ _, max_le (by linarith) ?_, max_le (by linarith) ?_⟩
+  · have := min_le_left e1 e2; have := le_max_left s1 s2; linarith
+  · have := min_le_right e1 e2; have := le_max_right s1 s2; linarith
+
+theorem affinity_eq (G : Geos σ) (g1 g2 : Geom) (tb fb : Rat) (p1 p2 : Prep σ)
+    (h1 : prepare G g1 tb fb = .ok p1) (h2 : prepare G g2 tb fb = .ok p2) :
+    affinity G g1 g2 tb fb = .ok (affinityP G p1 p2) := by
+  unfold affinity; rw [h1, h2]
+
+theorem affinity_ok_prepared (G : Geos σ) (g1 g2 : Geom) (tb fb v : Rat)
+    (h : affinity G g1 g2 tb fb = .ok v) :
+    ∃ p1 p2, prepare G g1 tb fb = .ok p1 ∧ prepare G g2 tb fb = .ok p2 ∧ v = affinityP G p1 p2 := by
+  unfold affinity at h
+  rcases h1 : prepare G g1 tb fb with e1 | p1 <;> rw [h1] at h <;> simp only at h
+  · cases h
+  · rcases h2 : prepare G g2 tb fb with e2 | p2 <;> rw [h2] at h <;> simp only at h
+    · cases h
+    · cases h; exact ⟨p1, p2, rfl, rfl, rfl⟩
+
 /-! ### rectangles -/
 
 theorem boxInter_bounds (s1 l1 e1 h1 s2 l2 e2 h2 : Rat) (a1 : s1 ≤ e1) (b1 : l1 ≤ h1) (a2 : s2 ≤ e2)
